@@ -49,7 +49,8 @@ class Stats:
 
 
 # ------------------------------------------------------------------------------ helpers
-BUILD_CMDS = {"leaf", "doomed", "joinid", "apply", "join", "chain", "mat", "transfer", "process"}
+BUILD_CMDS = {"leaf", "doomed", "joinid", "apply", "join", "chain", "mat", "transfer", "process",
+              "unwrap", "rawu", "rawchain", "rawjoin", "conform"}
 
 
 def parse_cmd(cmd: str):
@@ -1224,3 +1225,106 @@ def oracle_C20(cmds, impl, model, stats: Stats):
 
 ORACLES.update({"C03": oracle_C03, "C07": oracle_C07, "C10": oracle_C10, "C14": oracle_C14, "C15": oracle_C15,
                 "C16": oracle_C16, "C20": oracle_C20})
+
+
+# ------------------------------------------------------------------------------ C17
+def select_coherence(sel, lcols):
+    """Check one printed Select node; returns None or a (kind, detail) problem."""
+    # (select[+] (sort ...) proj dedup start stop compound SKIP TARGET)
+    sort_slot, proj_slot, dedup_slot, start, stop, compound, skip, target = sel[1:9]
+    skip_txt = strip_marks(proto.sx(skip))
+    is_chain = isinstance(skip, list) and skip and skip[0] == "b" and skip[1][0] == "chain"
+    if (compound == "T") != is_chain:
+        return ("compound-flag-wrong", f"is_compound={compound}, skip target {'is' if is_chain else 'is not'} a chain")
+    found = []
+    x = target
+    while strip_marks(proto.sx(x)) != skip_txt:
+        if not (isinstance(x, list) and x and x[0] == "u"):
+            return ("select-target-does-not-pass-through-skip-to",
+                    f"target {proto.sx(target)} never reaches skip_to {proto.sx(skip)}")
+        found.append(x)
+        x = x[3]
+    expected = []  # top-down
+    if start != "0" or stop != "-":
+        expected.append(("slice", ["slice", start, stop]))
+    if dedup_slot == "T":
+        expected.append(("dedup", ["dedup"]))
+    if proj_slot != "-":
+        expected.append(("proj", ["proj", proj_slot]))
+    if len(sort_slot) > 1:
+        expected.append(("sort", sort_slot))
+    i = 0
+    for node in found:
+        op = node[1]
+        while i < len(expected) and expected[i][0] != op[0]:
+            # a recorded operation may be absent only if it does nothing
+            kind, slot = expected[i]
+            if kind == "proj":
+                below = node_cols(node, lcols)
+                if set(filter(None, slot[1].strip("[]").split(","))) != below:
+                    return ("recorded-operation-missing", f"projection {slot[1]} missing above columns {sorted(below)}")
+            else:
+                return ("recorded-operation-missing", f"{kind} recorded in the Select but absent from the tree")
+            i += 1
+        if i >= len(expected):
+            return ("unrecorded-operation-between-select-and-skip-to", f"{proto.sx(op)}")
+        if proto.sx(op) != proto.sx(expected[i][1]):
+            return ("recorded-operation-differs", f"tree has {proto.sx(op)}, Select records {proto.sx(expected[i][1])}")
+        i += 1
+    for kind, slot in expected[i:]:
+        if kind == "proj":
+            below = node_cols(skip, lcols)
+            if set(filter(None, slot[1].strip("[]").split(","))) != below:
+                return ("recorded-operation-missing", f"projection {slot[1]} missing above columns {sorted(below)}")
+        else:
+            return ("recorded-operation-missing", f"{kind} recorded in the Select but absent from the tree")
+    return None
+
+
+def oracle_C17(cmds, impl, model, stats: Stats):
+    ctx = Ctx(cmds, impl, model)
+    stats.corr_diffs = getattr(stats, "corr_diffs", []) + sql_correspondence(ctx, stats, cmds)
+    out = []
+    kinds_of = engine_kinds(ctx)
+    lcols = leaf_cols(ctx)
+    for k, c in enumerate(ctx.cmds):
+        m = ctx.meta_at[k]
+        if m is None:
+            continue
+        sql_rel = kinds_of.get(m["eng"]) == "sql"
+        if sql_rel and c[0] in ("leaf", "doomed", "joinid", "apply", "join", "chain", "mat", "transfer"):
+            if not m["tree"][0].startswith("select"):
+                out.append(Violation("C17", "factory-result-not-conformed", f"{cmds[k]}: {m['tree_text']}"))
+        if c[0] == "conform":
+            src = ctx.meta.get(c[2])
+            if src is None:
+                continue
+            raw = not src["tree"][0].startswith("select")
+            stats.note(cmds[k] + src["tree_text"], raw, "conform:" + ("raw" if raw else "conformed"))
+            if not raw and m["how"] != "same":
+                out.append(Violation("C17", "conform-of-conformed-tree-returned-new-object", f"{cmds[k]}: {m['tree_text']}"))
+            if not m["tree"][0].startswith("select"):
+                out.append(Violation("C17", "conform-result-not-a-select", f"{cmds[k]}: {m['tree_text']}"))
+        # marker coherence of every Select in the tree
+        if sql_rel or c[0] == "conform":
+            for kd, n in tree_nodes(m["tree"], into_skip=True):
+                if kd == "select":
+                    p = select_coherence(n, lcols)
+                    if p is not None:
+                        out.append(Violation("C17", "marker-incoherent:" + p[0], f"{cmds[k]}: {p[1]}; {m['tree_text']}"))
+                        break
+    # rows of conformed raw trees
+    for k, name, il, ml, sem in _sql_pairs(ctx):
+        m = ctx.meta.get(name)
+        if m is None or sem is None or not il.startswith("ok rows0") or not ml.startswith("ok rows"):
+            continue
+        if field(ml, "det") != "T" or field(sem, "kd") != "T":
+            continue
+        rows0, want = field(il, "rows0"), field(sem, "rows")
+        if _ms(rows0) != _ms(want):
+            out.append(Violation("C17", "conformed-tree-rows-differ-from-direct-evaluation",
+                                 f"{name}: {rows0} vs {want}; {m['tree_text']}"))
+    return out
+
+
+ORACLES["C17"] = oracle_C17
